@@ -63,6 +63,7 @@ func TestVerif_C10(t *testing.T) {
 			_ = hasV
 		}
 	})
+	vSortSeqs(seqs)
 	// directed: version updates on both sides of the fetch, then a submission
 	nEnum := len(seqs)
 	seqs = append(seqs, vMDirectedVersionSeqs()...)
